@@ -102,6 +102,23 @@ def not3 : Val → Val
   | .bool b => .bool (!b)
   | _ => .null
 
+/-- The text an operand of `||` contributes: strings as they are, integers in decimal (the engines cast the integer
+operand of `||` to text; the translator admits `||` only between string- and integer-typed operands). -/
+def Val.toText? : Val → Option String
+  | .str s => some s
+  | .int i => some (toString i)
+  | _ => none
+
+/-- SQL string concatenation `a || b`: NULL if an operand is NULL. -/
+def Val.concat (a b : Val) : Val :=
+  match a, b with
+  | .null, _ => .null
+  | _, .null => .null
+  | a, b =>
+    match a.toText?, b.toText? with
+    | some x, some y => .str (x ++ y)
+    | _, _ => .null
+
 inductive Expr where
   | col (i : Nat)
   | lit (v : Val)
@@ -116,6 +133,8 @@ inductive Expr where
   | case (c t e : Expr)
   /-- `cast(a as float)` / `1.0 * a`: the exact number of an integer -/
   | toRat (a : Expr)
+  /-- `a || b` (string concatenation, NULL-propagating; an integer operand contributes its decimal text) -/
+  | concat (a b : Expr)
 deriving Repr, Inhabited
 
 def Expr.eval (row : Row) : Expr → Val
@@ -134,6 +153,7 @@ def Expr.eval (row : Row) : Expr → Val
   | .toRat a => match a.eval row with
     | .int i => .rat (i : Rat)
     | v => v
+  | .concat a b => Val.concat (a.eval row) (b.eval row)
 
 /-- `WHERE` / `ON` keep a row iff the predicate is TRUE. -/
 def Expr.holds (e : Expr) (row : Row) : Bool := e.eval row == .bool true
